@@ -1,6 +1,8 @@
 package props
 
 import (
+	"time"
+
 	"godsverif/core"
 )
 
@@ -71,6 +73,13 @@ func init() {
 		Title: "Self-balancing trees stay balanced: logarithmic work in every state",
 		Cases: func(tier string) int { return tierN(tier, 12000, 240000) },
 		Run:   runC07,
+		// the longest amplification cases (10^4 / 10^5-step sliding windows with a walk after every call) take seconds
+		CaseBudget: func(tier string) time.Duration {
+			if tier == "thorough" {
+				return 20 * time.Minute
+			}
+			return 3 * time.Minute
+		},
 		Rule: "RedBlackTree, AVLTree, BTree (orders 3..12,16,32,64) under sorted, reverse, zig-zag, middle-out, block and random builds, drains in the same families, churn, sliding windows (up to 10^4 steps quick / 10^5 thorough), one-sided drains; n up to 3000 (quick) / 20000 (thorough). " +
 			"Every Get/Put/Remove is measured with a counting comparator against the stated per-call bound (n = larger of the sizes before and after); the exported structure is walked after every call while n <= 300 and every 16th call above. " +
 			"Every case is non-trivial (>= 50 measured calls); distinct = distinct hash of the call list.",
